@@ -393,8 +393,15 @@ class Ring(object):
         ch = e.chain
         if not ch:
             return None
+        # ``vars(x)`` is ``x.__dict__``
+        if ch[:2] == ['vars', '()'] and 'vars' not in locals_:
+            t = e.target
+            while isinstance(t, (ast.Attribute, ast.Subscript)):
+                t = t.value
+            if isinstance(t, ast.Call) and len(t.args) == 1 and not t.keywords and effects.chain_of(t.args[0]):
+                ch = effects.chain_of(t.args[0]) + ['__dict__'] + ch[2:]
         root = ch[0]
-        in_place = e.kind == 'mutcall' or (e.kind in ('store', 'delete') and len(ch) >= 2) or e.kind == 'augname'
+        in_place = e.kind == 'mutcall' or (e.kind in ('store', 'delete') and (len(ch) >= 2 or e.method in ('setattr', 'delattr'))) or e.kind == 'augname'
         if e.kind == 'augname' and (effects.aug_rebinds(e.node) or effects.known_immutable(fi, e.target)):
             return None
         if not in_place:
@@ -442,7 +449,14 @@ class Ring(object):
                 if clf is not None:
                     return 'L3', 'the class-level object %s.%s = %s (written in the class body, never assigned per instance)' % (clf[0].name, chain[1], short(clf[1]))
             return None
-        # L4: module-level object
+        # L4: module-level object, also as an attribute of a module of the analysed tree (``mod._CACHE[k] = v`` / ``mod.FLAG = v``)
+        if root not in locals_ and len(ch) >= 2 and not any(root in _local_names(o) for o in _enclosing_funcs(fi)):
+            try:
+                kind, m_, obj = self.repo.resolve(fi.mod, root)
+            except Exception:
+                kind, m_ = None, None
+            if kind == 'module' and m_ is not None and not m_.external and ch[1] not in ('()', '[]'):
+                return 'L4', 'the module-level name %s.%s' % (root, ch[1])
         target = mal.get(root, root)
         if (root in mal or root not in locals_) and self.module_object(fi, target, locals_ if root not in mal else set()) is not None:
             if e.kind == 'augname' and root not in mal:
